@@ -197,8 +197,8 @@ def r04_4(run):
     # resolve the local names to what they denote
     den = {}
     for s in own_nodes(fi.node):
-        if isinstance(s, ast.Assign) and assigned_name(s):
-            den[assigned_name(s)] = norm(s.value)
+        if isinstance(s, ast.Assign) and assigned_name(s) and isinstance(s.value, (ast.Attribute, ast.Name)):
+            den[assigned_name(s)] = norm(s.value)  # plain projections only (op_out_base = op_out.base, parent_data = parent_var.data ...)
     sem = {(den.get(a, a), den.get(b2, b2)) for a, b2 in got}
     sem = {(a.replace("parent_data", den.get("parent_data", "parent_data")), b2.replace("parent_data", den.get("parent_data", "parent_data"))) for a, b2 in sem}
     need = {("op_out.base", "parent_var.data"), ("op_out.base", "parent_var.data.base"), ("op_out", "parent_var.data")}
